@@ -1068,6 +1068,38 @@ def corpus_refusals(R, r):
             refused(f"{Cls.__name__}({rg!r}): a nested list that has no shape", buf, lambda: Cls(rg, _buffer=buf))
         if [float(arr[i, j, k]) for i in range(2) for j in range(2) for k in range(2)] != [float(x) for x in range(8)]:
             R.fail("C11:error-with-side-effect", f"{Cls.__name__}: the array changed after refused updates", ctx)
+    # (c) a SEQUENCE offered for a single scalar slot (array item, struct field, item of a nested array) is no value of that slot: it
+    # would take the room of several.  Refused, nothing changes (O-39).  One-element containers convert to one number and are accepted.
+    P = type(xo.Struct)(f"Pair{uid}", (xo.Struct,), {"x": xo.Float64, "y": xo.Float64, "k": xo.Int8, "l": xo.Int8, "q": xo.Int32[3]})
+    for kind in ("numpy", "bytearray"):
+        buf = alloc_buffer(xo, kind)
+        try:
+            a = xo.Float64[3]([1.0, 2.0, 3.0], _buffer=buf)
+            b = xo.Float64[3]([4.0, 5.0, 6.0], _buffer=buf)
+            p = P(x=1.0, y=2.0, k=3, l=4, q=[5, 6, 7], _buffer=buf)
+            m = xo.Int16[2, 2]([[1, 2], [3, 4]], _buffer=buf)
+            guard = xo.String("neighbour", _buffer=buf)
+        except Exception as ex:
+            R.fail("C11:corpus-raises", f"scalar-slot corpus: {type(ex).__name__}: {str(ex)[:120]}", ctx)
+            continue
+        for what, fn in (("Float64[3] a[2] = [7, 8, 9]", lambda: a.__setitem__(2, [7.0, 8.0, 9.0])),
+                         ("Float64[3] a[0] = (7, 8)", lambda: a.__setitem__(0, (7.0, 8.0))),
+                         ("Float64[3] a[1] = ndarray of 4", lambda: a.__setitem__(1, np.arange(4.0))),
+                         ("struct field x = [7, 8, 9]", lambda: setattr(p, "x", [7.0, 8.0, 9.0])),
+                         ("struct field k (Int8) = [1, 2]", lambda: setattr(p, "k", [1, 2])),
+                         ("item of a nested array q[2] = [1, 2, 3]", lambda: p.q.__setitem__(2, [1, 2, 3])),
+                         ("Int16[2,2] m[1, 1] = [9, 9, 9]", lambda: m.__setitem__((1, 1), [9, 9, 9]))):
+            refused("a sequence for a single scalar slot: " + what, buf, fn)
+        try:
+            a[2] = [7.5]
+            p.x = np.array(8.5)
+            ok = ([float(v) for v in a.to_nparray()] == [1.0, 2.0, 7.5] and [float(v) for v in b.to_nparray()] == [4.0, 5.0, 6.0]
+                  and float(p.x) == 8.5 and float(p.y) == 2.0 and int(p.k) == 3 and int(p.l) == 4 and [int(v) for v in p.q.to_nparray()] == [5, 6, 7]
+                  and [int(m[i, j]) for i in range(2) for j in range(2)] == [1, 2, 3, 4] and guard.to_str() == "neighbour")
+        except Exception as ex:
+            ok = f"{type(ex).__name__}: {str(ex)[:100]}"
+        if ok is not True:
+            R.fail("C10:set-wrong", f"scalar-slot corpus: one-element values / neighbours read a={list(a.to_nparray())} b={list(b.to_nparray())} p.x={p.x} p.y={p.y} ({ok})", ctx)
 
 
 def corpus_array_values(R, r):
